@@ -55,7 +55,7 @@ def repro_snippet(rec):
     return "\n".join([
         "import io",
         "from dissect.cstruct import cstruct",
-        f"cs = cstruct(endian={mode['endian']!r}, pointer={absyn.PTRTYPES[mode['ptr']]!r})",
+        f"cs = cstruct(endian={codec.spelled(mode)!r}, pointer={absyn.PTRTYPES[mode['ptr']]!r})",
         f"cs.load({rec['defs']!r}, compiled={rec.get('req_compiled', False)!r}, align={mode['align']!r})",
         f"s = io.BytesIO(bytes({rec.get('input', [])!r})); s.seek({rec.get('start', 0)})",
         f"v = cs.{rec['type']['name']}.read(s); print(v, s.tell()); print(v.dumps().hex())",
